@@ -1345,6 +1345,12 @@ struct reb_binary_field { // This structure is used to save and load binary file
 };
 
 DLLEXPORT void reb_simulation_init(struct reb_simulation* r); // Used internally and by python. Should not be called by the user.
+
+// Verification hooks. Off unless the environment variable REBOUND_VERIF=1 is set; events are
+// appended to the file named by REBOUND_VERIF_TRACE. Not part of the public API.
+DLLEXPORT extern int reb_verif_state; // -1: not initialised, 0: off, 1: on
+DLLEXPORT void reb_verif_emit(const struct reb_simulation* const r, const char* event, int nargs, ...);
+#define REB_VERIF(r, event, nargs, ...) do{ if (reb_verif_state!=0) reb_verif_emit(r, event, nargs, __VA_ARGS__); }while(0)
 DLLEXPORT void reb_simulation_update_acceleration(struct reb_simulation* r); // Used by REBOUNDx
 DLLEXPORT void reb_simulation_update_tree(struct reb_simulation* const r);
 DLLEXPORT int reb_simulation_get_next_message(struct reb_simulation* const r, char* const buf); // Get the next stored warning message. Used only if save_messages==1. Return value is 0 if no messages are present, 1 otherwise.
